@@ -28,6 +28,7 @@ def gen_steps(ctx, keys):
 def run(ctx):
     ctx.prove(props=["C18_arc", "C18_seq"])
     gen_steps(ctx, ("arcenum", "seqenum"))
+    from props import pysem; pysem.run(ctx, pysem.GROUPS_FOR.get(ctx.pid, ()))
     c18_arc.run_part(ctx)
     c18_seq.run_part(ctx)
     if ctx.tier == "thorough":
